@@ -178,6 +178,32 @@ def generated(quick):
                 yield "string", t
 
 
+def families(quick):
+    """values whose text the loader normalises in ways only it produces: every fraction / zone
+    spelling of a time, numbers beyond the float range, statements that must be wrapped"""
+    fracs = ["", ".5", ".05", ".005", ".050", ".500", ".123", ".1234", ".123456", ".000001", ".999999", ".0", ".000"]
+    zones = ["", "Z", "+01", "-05:30", "+12"]
+    for fr in fracs:
+        for z in zones:
+            yield "temporal", "t = 12:00:00%s%s\nu = 2001-01-01T01:02:03%s%s\nv = (2001-060T23:59:59%s%s, 1)\n" % (
+                fr, z, fr, z, fr, z)
+    for d in ("0001-01-01", "0999-12-31", "1000-001", "9999-365", "2000-02-29", "2000-366"):
+        yield "temporal", "d = %s\ne = %sT00:00:00\n" % (d, d)
+    for n in ("1e999", "-2.5E+400", "1.0e309", "1e-999", "-1e-400", "1.7976931348623157e308", "99999999999999999999999",
+              "-16#FFFFFFFFFFFFFFFFFFFFFFFF#", "2#" + "1" * 70 + "#", "0.1e-320", "1" + "0" * 400 + ".0"):
+        yield "number", "k = %s\nj = (%s, 1 <m>)\ni = %s <s>\n" % (n, n, n)
+    words = ["narrow-angle", "wide-angle", "push-broom", "map-projected", "line-scan", "a-b", "x-1", "pre-flight"]
+    for n in (6, 9, 12):
+        for off in range(0, 6 if quick else 12):
+            pad = "k" * (1 + off)
+            seq = ", ".join(words[i % len(words)] for i in range(n))
+            yield "wrap", "%s = (%s)\n" % (pad, seq)
+            yield "wrap", '%s = "%s"\n' % (pad, " ".join(words[i % len(words)] for i in range(n)))
+            yield "wrap", "GROUP = g\n  %s = {%s}\nEND_GROUP\n" % (pad, ", ".join('"%s"' % words[i % len(words)] for i in range(n)))
+    yield "wrap", "k = %s\n" % "-".join(["word"] * 30)
+    yield "wrap", "k = (%s)\n" % ", ".join("2001-01-01T12:00:00.123456Z" for _ in range(8))
+
+
 def corpus(quick):
     root = os.path.join(impl.REPO, "tests", "data")
     for f in sorted(glob.glob(os.path.join(root, "**", "*"), recursive=True)):
@@ -216,7 +242,7 @@ def shard(items):
 
 
 def run(ctx):
-    items = list(generated(ctx.quick)) + list(corpus(ctx.quick))
+    items = list(generated(ctx.quick)) + list(families(ctx.quick)) + list(corpus(ctx.quick))
     specs = [items[i::160] for i in range(160) if items[i::160]]
     acc = ctx.pmap(shard, specs)
     cov = {
